@@ -2,6 +2,8 @@ package main
 
 import (
 	"fmt"
+	"go/types"
+	"regexp"
 	"sort"
 	"strings"
 
@@ -79,19 +81,27 @@ func checkC08(p *Prog, l *Ledger) {
 // ---- primitives -------------------------------------------------------------------------------------
 
 func checkParserPrimitives(p *Prog, l *Ledger, rule string) bool {
+	// reference behaviour, stated on what a primitive tests, stores, reports and returns — with every helper of the parser
+	// package inlined and the places of the token list and of the position written TOKS and POS (wherever they are kept)
+	q := regexp.QuoteMeta
+	eof := `\(TOKS\[POS\]\.Type == \d+\)`
 	specs := map[string]map[string]string{
-		"peek":     {"cur": `return\(p\.tokens\[p\.current\]\)`},
-		"previous": {"prev": `return\(p\.tokens\[\(p\.current \+ -1\)\]\)|return\(p\.tokens\[\(p\.current - 1\)\]\)`},
-		"isAtEnd":  {"eof": `call\(parser\.\(\*Parser\)\.peek, p\) ; return\(\(r\.Type == \d+\)\)`},
-		"advance": {"move": `call\(parser\.\(\*Parser\)\.isAtEnd, p\) ; test\(r\)→false ; fieldstore\(p\.current, \(p\.current \+ 1\)\) ; call\(parser\.\(\*Parser\)\.previous, p\) ; return\(r\)`,
-			"stay": `call\(parser\.\(\*Parser\)\.isAtEnd, p\) ; test\(r\)→true ; call\(parser\.\(\*Parser\)\.previous, p\) ; return\(r\)`},
-		"check": {"end": `call\(parser\.\(\*Parser\)\.isAtEnd, p\) ; test\(r\)→true ; return\(false\)`,
-			"cmp": `call\(parser\.\(\*Parser\)\.isAtEnd, p\) ; test\(r\)→false ; call\(parser\.\(\*Parser\)\.peek, p\) ; return\(\(a1 == r\.Type\)\)`},
-		"consume": {"ok": `call\(parser\.\(\*Parser\)\.check, p, a1\) ; test\(r\)→true ; call\(parser\.\(\*Parser\)\.advance, p\) ; return\(r, nil\)`,
-			"err": `call\(parser\.\(\*Parser\)\.check, p, a1\) ; test\(r\)→false ; call\(parser\.\(\*Parser\)\.peek, p\) ; call\(parser\.\(\*Parser\)\.error, p, r, a2\) ; return\((obj\S*|\?), r\)`},
-		"error": {"report": `call\(utils\.GlobalErrorToken, a1, a2\) ; return\(Errorf\(a2\)\)`},
+		"peek":     {"cur": q("return(TOKS[POS])")},
+		"previous": {"prev": q("return(TOKS[(POS - 1)])")},
+		"isAtEnd":  {"eof": `return\(` + eof + `\)`},
+		"advance": {"move": `test\(` + eof + `\)→false ; ` + q("fieldstore(POS, (POS + 1)) ; return(TOKS[POS])"),
+			"stay": `test\(` + eof + `\)→true ; ` + q("return(TOKS[(POS - 1)])")},
+		"check": {"end": `test\(` + eof + `\)→true ; return\(false\)`,
+			"cmp": `test\(` + eof + `\)→false ; ` + q("return((a1 == TOKS[POS].Type))")},
+		"consume": {"ok": `test\(` + eof + `\)→false ; ` + q("test((a1 == TOKS[POS].Type))→true ; fieldstore(POS, (POS + 1)) ; return(TOKS[POS], nil)"),
+			"err": `test\(` + eof + `\)→(true|false ; ` + q("test((a1 == TOKS[POS].Type))→false") + `) ; ` + q("call(parser.(*Parser).error, p, TOKS[POS], a2) ; return(") + `(obj\S*|\?), ` + q("error(p,TOKS[POS],a2))")},
+		"error": {"report": q("call(utils.GlobalErrorToken, a1, a2) ; return(Errorf(a2))")},
 	}
 	okAll := true
+	if parserCursor(p) == nil {
+		l.Undecide(rule, "Parser#cursor", "", "cannot tell where the parser keeps its token list and position (one []token.Token and one int field, in Parser or in one struct it holds)")
+		return false
+	}
 	var names []string
 	for n := range specs {
 		names = append(names, n)
@@ -104,88 +114,116 @@ func checkParserPrimitives(p *Prog, l *Ledger, rule string) bool {
 			okAll = false
 			continue
 		}
-		m := NewInterpModel(p, "Parser."+n)
-		m.MainMode = true
-		var params []AV
-		for i := range fn.Params {
-			if i == 0 {
-				params = append(params, Sym("p"))
-			} else {
-				params = append(params, Sym(fmt.Sprintf("a%d", i)))
-			}
-		}
-		m.Explore(fn, params, nil)
-		ws, ok := m.G.Words(100)
-		if !ok {
+		words := parserPrimitiveWords(p, fn)
+		if words == nil {
 			l.Undecide(rule, "Parser."+n, p.Pos(fn.Pos()), "paths not enumerable")
 			okAll = false
 			continue
 		}
-		var words []string
-		for _, w := range ws {
-			words = append(words, normName(wordString(w)))
-		}
-		matchWordSet(l, rule, "Parser."+n, p.Pos(fn.Pos()), uniqStrings(sortStrings(words)), specs[n])
+		matchWordSet(l, rule, "Parser."+n, p.Pos(fn.Pos()), words, specs[n])
 		if o := l.index[rule+"\x00Parser."+n]; o != nil && o.Status != Discharged {
 			okAll = false
 		}
 	}
-	// match: a range over the given types; advance on the first that check()s
-	fn := p.Func("parser.(*Parser).match")
-	if fn == nil {
+	// match (and a match that hands back the token): a range over the given types; on the first type the lookahead has,
+	// advance and answer true (with the token consumed); false when none matches
+	cp := parserCursor(p)
+	norm := func(s string) string {
+		s = normName(s)
+		s = strings.ReplaceAll(s, "p"+cp.path+"."+cp.toksField, "TOKS")
+		return strings.ReplaceAll(s, "p"+cp.path+"."+cp.posField, "POS")
+	}
+	reEOF := regexp.MustCompile(`^test\(` + eof + `\)$`)
+	var matchers []*ssa.Function
+	for fn, role := range parserPrimitives(p) {
+		if role == "match" || role == "take" {
+			matchers = append(matchers, fn)
+		}
+	}
+	sort.Slice(matchers, func(i, j int) bool { return p.FuncKey(matchers[i]) < p.FuncKey(matchers[j]) })
+	if len(matchers) == 0 {
 		l.Undecide(rule, "Parser.match", "", "not found")
 		return false
 	}
-	m := NewInterpModel(p, "Parser.match")
-	m.MainMode = true
-	m.Explore(fn, []AV{Sym("p"), Sym("a1")}, nil)
-	mon := Monitor{Init: "loop", Step: func(s string, ev *Event) string {
-		switch ev.Op {
-		case "next":
-			if ev.Out == "true" {
-				return "elem"
+	for _, fn := range matchers {
+		take := isTakeShaped(fn)
+		m := NewInterpModel(p, "Parser."+fnName(fn))
+		m.EmitTests = true
+		m.KeepAsEvent = func(c *ssa.Function) bool { return fnPkgName(c) != "parser" || fnName(c) == "error" }
+		m.Explore(fn, []AV{Sym("p"), Sym("a1")}, nil)
+		// state: phase|what the path knows about "at the end of input" (a test decided by an earlier one leaves no event)
+		mon := Monitor{Init: "loop|?", Step: func(st string, ev *Event) string {
+			es := norm(ev.String())
+			ps := strings.SplitN(st, "|", 2)
+			s, eofK := ps[0], ps[1]
+			if s == "elem" && eofK == "F" {
+				s = "live"
 			}
-			return "done"
-		case "call":
-			switch {
-			case strings.HasSuffix(ev.Args[0], ".check"):
-				if s != "elem" || len(ev.Args) < 3 || ev.Args[2] != "a1[range]" {
-					return "!match tests " + strings.Join(ev.Args[1:], ",") + " instead of the current candidate type"
-				}
-				return "checked"
-			case strings.HasSuffix(ev.Args[0], ".advance"):
-				if s != "hit" {
-					return "!match advances without a successful check"
-				}
-				return "advanced"
+			if s == "elem" && eofK == "T" {
+				s = "miss"
 			}
-			return "!unexpected call in match: " + ev.Args[0]
-		case "test":
-			if s == "checked" {
+			switch ev.Op {
+			case "next":
+				if s != "loop" {
+					return "!the candidate loop is advanced in state " + s
+				}
 				if ev.Out == "true" {
-					return "hit"
+					return "elem|" + eofK
 				}
-				return "miss"
+				return "done|" + eofK
+			case "test":
+				head := es[:strings.LastIndex(es, "→")]
+				switch {
+				case reEOF.MatchString(head):
+					if s == "elem" || s == "live" || s == "miss" {
+						if ev.Out == "true" {
+							return "miss|T"
+						}
+						return "live|F"
+					}
+					if s == "hit" {
+						return st // advance re-testing the end of input it cannot be at
+					}
+				case head == "test((a1[range] == TOKS[POS].Type))" || head == "test((TOKS[POS].Type == a1[range]))":
+					if s != "live" {
+						return "!the lookahead is compared before the end-of-input test (state " + s + ")"
+					}
+					if ev.Out == "true" {
+						return "hit|" + eofK
+					}
+					return "miss|" + eofK
+				}
+				return "!match tests " + es
+			case "fieldstore":
+				if s == "hit" && es == "fieldstore(POS, (POS + 1))" {
+					return "advanced|" + eofK
+				}
+				return "!match stores " + es + " in state " + s
+			case "backedge":
+				if s != "miss" {
+					return "!match continues the loop in state " + s
+				}
+				return "loop|" + eofK
+			case "return":
+				r0 := norm(ev.KV["r0"])
+				switch {
+				case !take && s == "advanced" && r0 == "true", !take && s == "done" && r0 == "false":
+					return ""
+				case take && s == "advanced" && r0 == "TOKS[POS]" && ev.KV["r1"] == "true", take && s == "done" && ev.KV["r1"] == "false":
+					return ""
+				}
+				return "!match returns " + ev.KV["r0"] + " " + ev.KV["r1"] + " in state " + s
+			case "call":
+				return "!unexpected call in match: " + ev.Args[0]
 			}
-		case "backedge":
-			if s != "miss" {
-				return "!match continues the loop in state " + s
+			return st
+		}}
+		before := len(l.Obls)
+		runMon(l, rule, "Parser."+fnName(fn), m, mon, "for each candidate type: not at the end and the lookahead has that type → advance and true (with the token) on the first hit; false when none matches")
+		for _, o := range l.Obls[before:] {
+			if o.Status != Discharged {
+				okAll = false
 			}
-			return "loop"
-		case "return":
-			switch {
-			case s == "advanced" && ev.KV["r0"] == "true", s == "done" && ev.KV["r0"] == "false":
-				return ""
-			}
-			return "!match returns " + ev.KV["r0"] + " in state " + s
-		}
-		return s
-	}}
-	before := len(l.Obls)
-	runMon(l, rule, "Parser.match", m, mon, "for each candidate type: check → advance and true on the first hit; false when none matches")
-	for _, o := range l.Obls[before:] {
-		if o.Status != Discharged {
-			okAll = false
 		}
 	}
 	return okAll
@@ -664,18 +702,24 @@ func parserCursorLemma(p *Prog) (bool, string) {
 				return
 			}
 			tn, f := structKey(fa.X.Type(), fa.Field)
-			if tn != "parser.Parser" {
+			cp := parserCursor(p)
+			if cp == nil {
 				return
 			}
-			switch f {
-			case "current":
-				if fk != "parser.(*Parser).advance" && fk != "parser.NewParser" {
-					why = append(why, "Parser.current is also written by "+fk)
+			ownedBy := func(owner string) bool { return fk == owner || p.OwnedBy(fn, owner) }
+			if tn == cp.posType && f == cp.posField {
+				if !ownedBy("parser.(*Parser).advance") && !ownedBy("parser.NewParser") {
+					why = append(why, "the parser's position ("+tn+"."+f+") is also written by "+fk)
 				}
-			case "tokens":
-				if fk != "parser.NewParser" {
-					why = append(why, "Parser.tokens is also written by "+fk)
+			}
+			if tn == cp.toksType && f == cp.toksField {
+				if !ownedBy("parser.NewParser") {
+					why = append(why, "the parser's token list ("+tn+"."+f+") is also written by "+fk)
 				}
+			}
+			// the struct that holds the cursor is itself put into the parser only at construction
+			if tn == "parser.Parser" && cp.path != "" && "."+f == cp.path && !ownedBy("parser.NewParser") {
+				why = append(why, "the parser's cursor (Parser"+cp.path+") is replaced by "+fk)
 			}
 		})
 	}
@@ -964,4 +1008,140 @@ func checkTargetTransparency(p *Prog, l *Ledger, pi *parserInfo) {
 		}
 	}
 	l.RequireMin(rule, 5, found, "expression-level parse functions whose result can reach the left side of '='")
+}
+
+// ---- the parser's cursor, wherever it is kept --------------------------------------------------------------
+
+type cursorPlaces struct {
+	toksType, toksField string // struct type and field holding the token list
+	posType, posField   string // struct type and field holding the position
+	path                string // how a *Parser reaches that struct: "" (its own fields) or ".cursor" …
+}
+
+var cursorPlacesCache = map[*Prog]*cursorPlaces{}
+
+// parserCursor finds where the parser keeps its token list and its position: a field of type []token.Token of Parser
+// itself, or of a struct (by value or pointer) that Parser has as a field; the position is the integer field of the
+// same struct that indexes the list.
+func parserCursor(p *Prog) *cursorPlaces {
+	if cp, ok := cursorPlacesCache[p]; ok {
+		return cp
+	}
+	cursorPlacesCache[p] = nil
+	pk := p.Pkg("parser")
+	if pk == nil {
+		return nil
+	}
+	pt, _ := pk.Members["Parser"].(*ssa.Type)
+	if pt == nil {
+		return nil
+	}
+	st, ok := pt.Type().Underlying().(*types.Struct)
+	if !ok {
+		return nil
+	}
+	isTokList := func(t types.Type) bool {
+		sl, ok := t.Underlying().(*types.Slice)
+		return ok && typeStr(sl.Elem()) == "token.Token"
+	}
+	find := func(s *types.Struct, owner, path string) *cursorPlaces {
+		var toks, pos []string
+		for i := 0; i < s.NumFields(); i++ {
+			f := s.Field(i)
+			if isTokList(f.Type()) {
+				toks = append(toks, f.Name())
+			}
+			if b, ok := f.Type().Underlying().(*types.Basic); ok && b.Kind() == types.Int {
+				pos = append(pos, f.Name())
+			}
+		}
+		if len(toks) == 1 && len(pos) == 1 {
+			return &cursorPlaces{owner, toks[0], owner, pos[0], path}
+		}
+		return nil
+	}
+	if cp := find(st, "parser.Parser", ""); cp != nil {
+		cursorPlacesCache[p] = cp
+		return cp
+	}
+	for i := 0; i < st.NumFields(); i++ {
+		f := st.Field(i)
+		t := f.Type()
+		if ptr, ok := t.Underlying().(*types.Pointer); ok {
+			t = ptr.Elem()
+		}
+		if s2, ok := t.Underlying().(*types.Struct); ok {
+			if cp := find(s2, typeStr(t), "."+f.Name()); cp != nil {
+				cursorPlacesCache[p] = cp
+				return cp
+			}
+		}
+	}
+	return nil
+}
+
+// parserPrimitiveWords: a cursor primitive as event words with every parser-package helper it calls inlined and the
+// places of token list and position written TOKS and POS, so that the words do not depend on where the cursor lives
+// or on how the primitive is split into helpers.
+func parserPrimitiveWords(p *Prog, fn *ssa.Function) []string {
+	cp := parserCursor(p)
+	if cp == nil {
+		return nil
+	}
+	m := NewInterpModel(p, "Parser."+fnName(fn))
+	m.EmitTests = true
+	m.KeepAsEvent = func(c *ssa.Function) bool {
+		return fnPkgName(c) != "parser" || fnName(c) == "error"
+	}
+	var params []AV
+	for i := range fn.Params {
+		if i == 0 {
+			params = append(params, Sym("p"))
+		} else {
+			params = append(params, Sym(fmt.Sprintf("a%d", i)))
+		}
+	}
+	m.Explore(fn, params, nil)
+	ws, ok := m.G.Words(200)
+	if !ok || len(m.Undecided) > 0 {
+		return nil
+	}
+	var words []string
+	for _, w := range ws {
+		var parts []string
+		seen := map[string]bool{}
+		for _, part := range strings.Split(normName(wordString(w)), " ; ") {
+			if strings.HasPrefix(part, "test(") {
+				if seen[part] {
+					continue
+				}
+				seen[part] = true
+			}
+			// a loop over a list written out at the call (take(tokenType)) is walked exactly: its bookkeeping is not behaviour
+			if strings.HasPrefix(part, "next(obj:") || part == "backedge(range)" {
+				continue
+			}
+			parts = append(parts, part)
+		}
+		s := strings.Join(parts, " ; ")
+		s = strings.ReplaceAll(s, "p"+cp.path+"."+cp.toksField, "TOKS")
+		s = strings.ReplaceAll(s, "p"+cp.path+"."+cp.posField, "POS")
+		words = append(words, s)
+	}
+	return uniqStrings(sortStrings(words))
+}
+
+func init() {
+	debugHooks["pprim"] = func(p *Prog, what string) {
+		fmt.Printf("%+v\n", parserCursor(p))
+		for _, n := range []string{"peek", "previous", "isAtEnd", "advance", "check", "consume", "match", "error"} {
+			fn := p.Func("parser.(*Parser)." + n)
+			if fn == nil {
+				continue
+			}
+			for _, w := range parserPrimitiveWords(p, fn) {
+				fmt.Println(n, "::", w)
+			}
+		}
+	}
 }
